@@ -28,7 +28,7 @@ TStep ==
   /\ LET ev == TraceLog[l]
          lb == ev.lbl
          exp == MemExpect(lb)
-         tc == lb.cat = "TC"
+         tc == Plain(lb.cat)
          L == Fold(ev.events)
          dstIds == {ev.dst[i].id : i \in 1..Len(ev.dst)} \ {0}
          \* is the object whose bytes are seen in slot s alive
@@ -51,6 +51,9 @@ TStep ==
            ELSE IF ~exp.exc /\ ev.ret2 >= 0 /\ ev.ret2 # exp.ret2 THEN "returned source iterator differs"
            ELSE IF Len(ev.src) # Len(exp.src) \/ Len(ev.dst) # Len(exp.dst) THEN "malformed observation"
            ELSE IF ~tc /\ L.bad THEN "object used, assigned or destroyed outside its lifetime"
+           \* (every destination of these algorithms is raw storage: nothing may be ASSIGNED there)
+           ELSE IF lb.cat = "TDC" /\ \E i \in 1..Len(ev.events) : ev.events[i][1] \in {"casg", "masg"}
+                THEN "assignment operator run on raw storage"
            ELSE IF \E i \in 1..Len(exp.dst) : ~SlotOK("dst", i, ev.dst[i], exp.dst[i])
                 THEN IF exp.exc THEN "objects created before the exception were not all destroyed (or something else was touched)"
                      ELSE "destination objects differ from the standard algorithm"
